@@ -118,6 +118,7 @@ class Evaluator:
         self.opaque_methods: set[str] = set()
         self._stack: list[int] = []
         self._call_aliases: set[str] | None = None
+        self.call_ctx: dict = {}  # call term -> [tuple of `with` context terms active at each evaluation of it]
         self.inline_private_static = True  # Cls._helper(...) private static helpers are read at the call site (rules name the ones they want opaque)
 
     def call_aliases(self) -> set:
@@ -887,11 +888,17 @@ class _Ctx:
                     out[k] = ("opaque", f"while:{k}", (env.get(k), v))
             return out
         if isinstance(st, ast.With):
+            ctxs = []
             for it in st.items:
                 v = self.expr(it.context_expr, env)
+                ctxs.append(v)
                 if it.optional_vars is not None:
                     self.assign(it.optional_vars, v, env)
-            return self.block(st.body, env, conds)
+            self.withs = getattr(self, "withs", []) + ctxs
+            try:
+                return self.block(st.body, env, conds)
+            finally:
+                self.withs = self.withs[: len(self.withs) - len(ctxs)]
         if isinstance(st, ast.Try):
             e = self.block(st.body, env, conds)
             if e is None:
@@ -1214,7 +1221,13 @@ class _Ctx:
                 kwargs["**"] = self.expr(k.value, env)
             else:
                 kwargs[k.arg] = self.expr(k.value, env)
-        return self.call_value(f, args, kwargs)
+        res = self.call_value(f, args, kwargs)
+        if is_t(res, "call") and getattr(self, "withs", None):
+            # calls evaluated inside `with ctx:` blocks (through inlined helpers too): rules about the ambient context of a call read this table
+            ev.call_ctx.setdefault(res, []).append(tuple(self.withs))
+        elif is_t(res, "call"):
+            ev.call_ctx.setdefault(res, []).append(())
+        return res
 
     # positional order of the generative-function-interface methods: `gf.edit(key, tr, request=r, argdiffs=a)` is the same call as `gf.edit(key, tr, r, a)`
     _GFI_SIG = {
@@ -1369,6 +1382,7 @@ class _Ctx:
         if a.kwarg:
             env[a.kwarg.arg] = ("dict", tuple((C(k), v) for k, v in kwargs.items() if k not in params))
         sub = _Ctx(ev, clo.module, clo.cls, self.depth + 1)
+        sub.withs = list(getattr(self, "withs", []))
         body = [ast.Return(value=node.body)] if isinstance(node, ast.Lambda) else node.body
         res = sub.run_body(body, env)
         ev.calls_inlined += 1
